@@ -730,6 +730,23 @@ def trainable_classes(idx) -> list[Cls]:
     return out
 
 
+def options_generator_shape(src: Path) -> bool:
+    """TrainingOptions.random_generator must hand the configured rng to lenskit.random.random_generator as it is:
+    the child SeedSequence a pipeline passes in is then the seed of the generator the component obtains."""
+    tree = ast.parse((src / "lenskit" / "training.py").read_text())
+    cls = [n for n in tree.body if isinstance(n, ast.ClassDef) and n.name == "TrainingOptions"]
+    if len(cls) != 1:
+        raise TranslateError("class TrainingOptions not found")
+    fs = [n for n in cls[0].body if isinstance(n, ast.FunctionDef) and n.name == "random_generator"]
+    if len(fs) != 1:
+        raise TranslateError("TrainingOptions.random_generator not found")
+    body = [ast.unparse(x) for x in strip_doc(fs[0].body)]
+    if body != ["return random_generator(self.rng)"]:
+        raise TranslateError(f"TrainingOptions.random_generator is {body}, expected ['return random_generator(self.rng)'] "
+                             "(the seed a component uses would no longer be the seed it was given)")
+    return True
+
+
 def extract(src: Path) -> dict:
     idx = build_index(src)
     classes, abstract = [], []
@@ -743,7 +760,7 @@ def extract(src: Path) -> dict:
                         "variants": [{"assume": a, **fr} for a, fr in vs]})
     if not classes:
         raise TranslateError("no trainable classes found")
-    return {"classes": classes, "abstract": abstract, "pipeline": pipeline_shape(src)}
+    return {"classes": classes, "abstract": abstract, "pipeline": pipeline_shape(src), "options_passthrough": options_generator_shape(src)}
 
 
 # ---------------------------------------------------------------------------------------------
@@ -907,6 +924,9 @@ def to_gallina(info: dict) -> str:
     out.append("  end.\n")
     out.append(f"Definition pt_spawn_width : nat := {p['spawn_width']}.   (* seed.spawn(1) *)\n")
     out.append(f"Definition pt_spawn_pick : nat := {p['spawn_pick']}.    (* [0] *)\n")
+    out.append("(* TrainingOptions.random_generator is `return random_generator(self.rng)`: the generator a component obtains is\n"
+               "   made from exactly the rng it was handed *)\n")
+    out.append(f"Definition options_rng_passthrough : bool := {'true' if info['options_passthrough'] else 'false'}.\n")
     return "".join(out)
 
 
